@@ -3,8 +3,8 @@
    OCaml's; N, Z, positive, nat, ascii, string stay Coq datatypes. *)
 Require Extraction.
 Require Import ExtrOcamlBasic.
-From GV Require Import Enc.Enc Disk.Disk Disk.Reopen.
+From GV Require Import Enc.Enc Disk.Disk Disk.Reopen Conc.Lin Conc.LinCheck Conc.DiskLin.
 Extraction Language OCaml.
 From Coq Require Import NArith ZArith.
 Extraction "models.ml" N.add Z.add Z.mul put_le get_le
-  regs_init regs_step mem_init mem_step file_init file_step open_disk close_disk.
+  regs_init regs_step mem_init mem_step file_init file_step open_disk close_disk disk_lin_check.
